@@ -5,6 +5,7 @@
    Net/Levels.v (local <-> echelon base-stock levels).  The models mirror the Python (idempotence rules, list orders,
    exceptions as [Err]); they are tied to /repo by py/props/c18.py after every single operation.
    [reachable w]: w = run ops empty_net for some operation list whose reindex dicts are injective on the nodes. *)
+From SV Require Import Net.Placement Net.Placement_proofs.   (* first: its [run] must not shadow Net.Graph.run *)
 From SV Require Import Net.Graph Net.Graph_proofs Net.Bom Net.Bom_proofs Net.Builders Net.Builders_proofs
   Net.Levels Net.Levels_proofs.
 Local Open Scope nat_scope.
@@ -253,6 +254,40 @@ Example C18_nonvacuous_levels :
   end.
 Proof. vm_compute. split; reflexivity. Qed.
 
+(* ---- (8) object-valued arguments: identity of the Policy / DisruptionProcess objects placed at the nodes ----------- *)
+(* Net/Placement.v models the loop of network_from_edges that fills inventory_policy / disruption_process with object
+   identity made explicit ([arg oid]: equal ids = the same object of the caller; a store maps every object to its .node
+   link, so aliasing is real).  [ns] = network.nodes, [order] = node_order_in_lists.  For every argument shape: *)
+(* no two nodes hold one and the same Policy (DisruptionProcess) object *)
+Theorem C18_place_no_sharing (a : arg oid) (order ns : list nat) : NoDup ns ->
+  NoDup (map (fun t : nat * oid * nat => snd (fst t)) (place_pol ns order a)) /\ NoDup (map snd (place_dp ns order a)).
+Proof. intro H; exact (conj (place_no_sharing a order ns H) (place_dp_no_sharing a order ns H)). Qed.
+(* every node holds a policy whose .node link (read from the store after the whole loop) is the node itself *)
+Theorem C18_place_self_link (a : arg oid) (order ns : list nat) : NoDup ns ->
+  (forall n p k, In (n, p, k) (place_pol ns order a) -> k = n) /\
+  (forall n, In n ns -> exists p, In (n, p, n) (place_pol ns order a)).
+Proof. intro H; exact (conj (fun n p k => place_self_link a order ns n p k H) (fun n => place_self_link_all a order ns n H)). Qed.
+(* the first node that takes object o holds the caller's OWN object (identity kept; in particular one-node systems) *)
+Theorem C18_place_keeps_first (a : arg oid) (order ns pre : list nat) (n : nat) (post : list nat) (o : oid) :
+  NoDup ns -> ns = pre ++ n :: post -> (forall m, In m pre -> data a order m <> Some o) ->
+  data a order n = Some o -> In (n, o, n) (place_pol ns order a).
+Proof. exact (place_keeps_first a order ns pre n post o). Qed.
+(* copying changes identities only: the VALUE held at n is the value the Builders model [data] assigns to n; an object
+   below [base a] at a node is the caller's object the argument names for that node; a node without entry gets a new one *)
+Theorem C18_place_values (a : arg oid) (order : list nat) (V : Type) (val : oid -> V) (ns : list nat) (n : nat) (p : oid) (k : nat) :
+  NoDup ns -> In (n, p, k) (place_pol ns order a) ->
+  (forall v, data (arg_map val a) order n = Some v -> val (place_orig ns order a p) = v) /\
+  (p < base a -> data a order n = Some p) /\
+  (data a order n = None -> base a <= p).
+Proof. intros H Hin; exact (conj (fun v => place_values a order val ns n p k v H Hin)
+  (conj (place_caller_object a order ns n p k H Hin) (place_default_fresh a order ns n p k H Hin))). Qed.
+(* the theorem is about the repaired loop: the loop as it was before fix 7f46636 (no copy) refutes it *)
+Theorem C18_place_old_code_refuted :
+  place_pol_old [0; 1; 2] [0; 1; 2] (AScalar 7) = [(0, 7, 2); (1, 7, 2); (2, 7, 2)] /\
+  place_obs_old [0; 1; 2] [0; 1; 2] (AScalar 7) = [[0; 1; 2]] /\
+  place_links_old [0; 1; 2] [0; 1; 2] (AScalar 7) = [(0, 2); (1, 2); (2, 2)].
+Proof. exact place_old_refuted. Qed.
+
 Print Assumptions C18_adj_symmetric.
 Print Assumptions C18_edges_view.
 Print Assumptions C18_sources_sinks_view.
@@ -279,3 +314,8 @@ Print Assumptions C18_demand_at_scalar.
 Print Assumptions C18_levels_inverse.
 Print Assumptions C18_levels_echelon_sum.
 Print Assumptions C18_levels_inverse_needs_nonneg.
+Print Assumptions C18_place_no_sharing.
+Print Assumptions C18_place_self_link.
+Print Assumptions C18_place_keeps_first.
+Print Assumptions C18_place_values.
+Print Assumptions C18_place_old_code_refuted.
